@@ -501,7 +501,8 @@ impl<H: DnsHandle> DnssecDnsHandle<H> {
         }
 
         // if not all of the DNSKEYs are in the root store, then we need to look for DS records to verify
-        let ds_records = if !dnskey_proofs.iter().all(|p| p.0.is_secure()) && !key.name.is_root() {
+        let all_in_root_store = dnskey_proofs.iter().all(|p| p.0.is_secure());
+        let ds_records = if !all_in_root_store && !key.name.is_root() {
             // Need to get DS records for each DNSKEY.
             // Every DNSKEY other than the root zone's keys may have a corresponding DS record.
             self.fetch_ds_records(Name::from(&key.name), options)
@@ -579,8 +580,10 @@ impl<H: DnsHandle> DnssecDnsHandle<H> {
             }
         }
 
-        // if it was just the root DNSKEYS with no RRSIG, we'll accept the entire set, or none
-        if !dnskey_proofs.is_empty() && dnskey_proofs.iter().all(|(proof, ..)| proof.is_secure()) {
+        // if it was just the root DNSKEYS with no RRSIG, we'll accept the entire set, or none. A key
+        // that only matches a DS record is no trust anchor: it has to sign the DNSKEY RRset
+        // (RFC 4035 section 5.2).
+        if !dnskey_proofs.is_empty() && all_in_root_store {
             let proof = dnskey_proofs.pop().unwrap(/* This can not happen due to above test */);
             return Ok(RrsetProof {
                 proof: proof.0,
